@@ -461,7 +461,9 @@ def build_cyc_case(spec, T):
     from flowpaths.utils import safetypathcoverscycles as spcc
     case = Case(spec)
     G = base_graph(spec)
-    st = fp.stDiGraph(G); g = Gr(st)
+    st = fp.stDiGraph(G, additional_starts=list(spec.get("starts", [])), additional_ends=list(spec.get("ends", []))); g = Gr(st)
+    if spec.get("starts") or spec.get("ends"):
+        case.dists.append("cyc:additional_starts/ends")
     X = g.denorm(spec["X"])
     items = [[e] for e in X]
     walks, complete = enum_walks(st, max_rep=2, max_len=16, cap=2500)
@@ -517,7 +519,7 @@ def build_cyc_case(spec, T):
                           {"sequence": g.norm(q2), "safe_dec": ok, "brute": b, "complete": complete}, concrete=False)
         ask_safe(case, g, items, q2, ctl)
     for mk in spec.get("models", []):
-        build_cyc_model(case, G, mk, T)
+        build_cyc_model(case, G, mk, T, spec)
     case.sample = {"kind": "cyc", "edges": spec["edges"], "X": spec["X"][:6], "sequences": [g.norm(q) for q in seqs[:2]]}
     return case
 
@@ -525,10 +527,12 @@ def build_cyc_case(spec, T):
 CYC_CLASSES = ["kPathCoverCycles", "kFlowDecompCycles", "kLeastAbsErrorsCycles", "kMinPathErrorCycles"]
 
 
-def build_cyc_model(case, G, mk, T):
+def build_cyc_model(case, G, mk, T, spec=None):
     import flowpaths as fp
     opts = dict(mk["opts"])
     kw = dict(optimization_options=opts)
+    if spec and (spec.get("starts") or spec.get("ends")):
+        kw.update(additional_starts=list(spec.get("starts", [])), additional_ends=list(spec.get("ends", [])))
     if mk.get("subsets"):
         kw["subset_constraints"] = [[tuple(e) for e in c] for c in mk["subsets"]]
     if mk.get("ignore"):
@@ -762,7 +766,8 @@ def build_iflow_case(spec, T):
             case.fail("compute_inexact_flow_decomp_safe_paths returned something that is not a path of G", {"path": l}); continue
         plist.append([l[0][0]] + [e[1] for e in l])
     case.nontrivial = any(len(p) >= 3 for p in plist) and any(lb < ub for _, _, lb, ub in spec["edges"])
-    case.dists.append("iflow:inexact_edges=" + str(min(4, sum(1 for _, _, lb, ub in spec["edges"] if lb < ub))))
+    ninex = sum(1 for _, _, lb, ub in spec["edges"] if lb < ub)
+    case.dists.append("iflow:inexact_edges=" + (str(ninex) if ninex < 4 else ">=4"))
     flows = [None]                                      # computed lazily, once per case
     def get_flows():
         if flows[0] is None:
@@ -802,6 +807,27 @@ def build_iflow_case(spec, T):
                 case.fail("compute_inexact_flow_decomp_safe_paths: a reported path does not have positive worst-case excess "
                           "(verified criterion inexact_pos_dec = false); no avoiding decomposition found by the bounded search", det, concrete=False, key=key)
         case.ask("sf_iexcess " + common.toks(bl, len(p), [ids[v] for v in p]), resf)
+    # correspondence with the definition (completeness is not part of the property, so a difference is never a failing input):
+    # the function returns, per decomposition path, exactly the maximal windows of positive worst-case excess
+    def wexc(q):
+        val = G.edges[q[0], q[1]]["lb"]
+        for a, b in zip(q[1:], q[2:]):
+            val -= sum(G.edges[e]["ub"] for e in G.out_edges(a)) - G.edges[a, b]["ub"]
+        return val
+    expected = set()
+    for dp in spec["paths"]:
+        best = 0
+        for L in range(len(dp) - 1):
+            R = L
+            while R + 1 < len(dp) and wexc(dp[L:R + 2]) > 0:
+                R += 1
+            if R > L and R > best:
+                expected.add(tuple(dp[L:R + 1]))
+            best = max(best, R)
+    case.counts["c_E3_inexact_windows"] += 1
+    if expected != set(tuple(q) for q in plist):
+        case.fail("E3: compute_inexact_flow_decomp_safe_paths does not return exactly the maximal windows of positive worst-case excess "
+                  "of the given decomposition paths", {"impl": sorted(plist), "expected": sorted(map(list, expected))}, concrete=False)
     # independent cross-check: under every feasible integer flow every reported path has positive exact excess
     fl = get_flows() if spec.get("brute") else None
     if fl and flows[0][1]:
@@ -942,7 +968,8 @@ CYC_OPTS = [
 ]
 
 
-def gen_cyc_spec(rng, i):
+def gen_cyc_spec(rng, i, extra_starts=False):
+    """extra_starts=False (the default, also used by harness/e3dom.py): the s-t graph is stDiGraph(G) of the spec's edges."""
     import flowpaths as fp
     gadgets = []
     if rng.random() < 0.55:
@@ -951,12 +978,27 @@ def gen_cyc_spec(rng, i):
         G = gen.rand_cyclic(rng, nmax=rng.choice([3, 4, 5, 6]))
         if G.number_of_nodes() > 8 or G.number_of_edges() > 14:
             G, gadgets = gen_scc.rand_scc_graph(rng)
-    st = fp.stDiGraph(G); g = Gr(st)
+    starts = []; ends = []
+    if extra_starts and rng.random() < 0.3:          # walks may also begin / stop at inner nodes: extra source / sink edges in the s-t graph
+        inner = [v for v in G.nodes() if G.in_degree(v) > 0 and G.out_degree(v) > 0] or list(G.nodes())
+        r2 = rng.random()
+        if r2 < 0.7:
+            starts = sorted(set(rng.choice(inner) for _ in range(rng.randint(1, 2))))
+        if r2 > 0.3:
+            ends = sorted(set(rng.choice(inner) for _ in range(rng.randint(1, 2))))
+    st = fp.stDiGraph(G, additional_starts=starts, additional_ends=ends); g = Gr(st)
     mode, X, cons = choose_X(rng, g, "cyc")
-    f = rand_flow_on(rng, G, walks=True)
+    f = collections.Counter()       # flow = superposition of weighted s-t walks (they may use the extra starts / ends)
+    for _ in range(rng.randint(1, 4)):
+        w = gen.rand_walk(rng, st, maxlen=14, srcs=[st.source], snks=[st.sink])
+        if w is None:
+            continue
+        wt = rng.randint(1, 6)
+        for e in gen.pairs(w[1:-1]):
+            f[e] += wt
     scale = rng.choice([1, 1, 1, 0.25, 0.5, 2, 4])
     spec = {"kind": "cyc", "edges": [[u, v, f.get((u, v), 0) * scale] for u, v in G.edges()], "nodes": list(G.nodes()),
-            "xmode": mode, "X": g.norm(X), "gadgets": gadgets,
+            "xmode": mode, "X": g.norm(X), "gadgets": gadgets, "starts": starts, "ends": ends,
             "perturb": [{"i": rng.randrange(100), "e": rng.randrange(100), "pos": rng.randrange(100)} for _ in range(2)],
             "models": []}
     for _ in range(rng.choice([1, 1, 2])):
@@ -1009,7 +1051,7 @@ def gen_slot_spec(rng, i):
         G = gen.rand_dag(rng, nmax=rng.choice([7, 8, 8]))
         st = fp.stDAG(G); kmax = 6 if sub == "dagw" else 4
     g = Gr(st)
-    X = rng.sample(g.edges, rng.randint(1, min(kmax, len(g.edges))))
+    X = rng.sample(g.edges, rng.randint(min(2, len(g.edges)), min(kmax, len(g.edges))))      # one trusted edge gives at most one slot
     return {"kind": "slot", "sub": sub, "edges": [list(e) for e in G.edges()], "nodes": list(G.nodes()), "X": g.norm(X),
             "weights": [rng.randint(1, 5) for _ in X], "largest": rng.random() < 0.3}
 
@@ -1053,7 +1095,7 @@ def build_slot_case(spec, T):
     return case
 
 
-BUILDERS = {"iflow": (gen_iflow_spec, build_iflow_case), "slot": (gen_slot_spec, build_slot_case), "dag": (gen_dag_spec, build_dag_case), "cyc": (gen_cyc_spec, build_cyc_case), "flow": (gen_flow_spec, build_flow_case)}
+BUILDERS = {"iflow": (gen_iflow_spec, build_iflow_case), "slot": (gen_slot_spec, build_slot_case), "dag": (gen_dag_spec, build_dag_case), "cyc": (lambda rng, i: gen_cyc_spec(rng, i, extra_starts=True), build_cyc_case), "flow": (gen_flow_spec, build_flow_case)}
 
 
 # ----------------------------------------------------------------------------- run / replay
@@ -1155,6 +1197,7 @@ def run(ctx):
                          f"('dict' object is not callable: stDAG.nodes_reaching is a property) in {n_dormant} explicit calls; on the DAG side only "
                          "safe_lists and paths_to_fix are certified")
     import e3dom; e3dom.run_dom_e3(ctx, ctx.budget(250, 5000))   # dominator route of the cyclic class against the extracted DomAlg model
+    import e3fix; e3fix.run_fix_e3(ctx, ctx.budget(150, 3000))   # zero-fixing rule of the cyclic classes against WalkEncRows.zero_edges
 
 
 def replay(ctx, body):
